@@ -904,6 +904,10 @@ func RunC07(tier string) int {
 		for k, i := range multi {
 			margs[k] = map[string]any{"parser": "ParseSource", "s": seeds[i]}
 		}
+		mapOrdBudget = 150 * time.Second
+		if thorough {
+			mapOrdBudget = 20 * time.Minute
+		}
 		st := &mapOrdStats{}
 		exploreMapOrders(0, "addrpolicy", margs, 2, func(_ int, raw json.RawMessage) string {
 			// the verdict, not the wording of a rejection (which of several reasons is named first may vary)
@@ -920,6 +924,9 @@ func RunC07(tier string) int {
 			}, st)
 		rep.Evaluations += st.Runs
 		rep.Extra["map_orders"] = st.summary()
+		if st.Capped {
+			rep.Exhaustive = false
+		}
 		fmt.Printf("  map-order part: seeds=%d runs=%d choice points=%d differing=%d\n", st.Tasks, st.Runs, st.Points, st.Differing)
 	}
 	// shorthand spellings whose sub-path, as written, has an empty, '.' or '..' segment: an expansion that tidies the
@@ -1048,6 +1055,23 @@ func RunC07(tier string) int {
 				} else if rs.Package().URL().Query().Get("archive") != "tgz" {
 					rep.Violation("sourceaddrs.ParseRemoteSource/archive-arg-not-normalised", fmt.Sprintf("%q => %q", s, rs.String()), "", nil)
 				}
+			}
+		}
+	}
+	// "::" is the type separator only in front of the URL: an IPv6 host, a path or a query argument may contain it
+	for _, s := range []string{"https://[2001:db8::1]/modules/foo.tar.gz", "https://[::1]:8443/foo.tgz//sub/dir", "https://[fe80::1]/foo?archive=tar.gz", "https://example.com/ns::name.tgz",
+		"https://example.com/foo.tgz?label=team::infra", "git::https://[2001:db8::1]/r.git", "git::https://example.com/a::b/r.git?ref=v1", "git::ssh://[::1]/r.git//sub", "https://example.com/foo.tgz//a::b"} {
+		validN++
+		for name, f := range map[string]func(string) error{
+			"ParseSource":       func(x string) error { _, err := sourceaddrs.ParseSource(x); return err },
+			"ParseRemoteSource": func(x string) error { _, err := sourceaddrs.ParseRemoteSource(x); return err },
+			"ParseFinalSource":  func(x string) error { _, err := sourceaddrs.ParseFinalSource(x); return err },
+		} {
+			var err error
+			if p := guard(func() { err = f(s) }); p != "" {
+				rep.Violation("sourceaddrs."+name+"/panic", fmt.Sprintf("%s(%q) panics: %s", name, s, p), "", nil)
+			} else if err != nil {
+				rep.Violation("sourceaddrs."+name+"/valid-address-rejected", fmt.Sprintf("valid address %q (a '::' behind the URL scheme is not a type separator) rejected: %v", s, err), "", nil)
 			}
 		}
 	}
